@@ -50,8 +50,12 @@ def run(tier):
                   git_wrap=True)
     gitr = gitl + [{"cmd": c, "at": 1, "after": a} for c in ("push", "ls-remote", "fetch")
                    for a in (False, True)]
+    # the remote becomes unreachable: the push fails and so does everything that would consult it
+    gitr += [{"cmd": "push", "at": 1, "after": False,
+              "also": [{"cmd": "ls-remote", "at": 1}, {"cmd": "fetch", "at": 1}]},
+             {"cmd": "push", "at": 1, "after": False, "also": [{"cmd": "ls-remote", "at": 1}]}]
     if not thorough:     # ~7 s per sequence
-        gitr = gitr[::4] + gitr[-6::2]
+        gitr = gitr[::4] + gitr[-8:-2:2] + gitr[-2:]
     chain_conform(v, wd, "git-remote-faults", "git-remote",
                   fault_behaviours("git-remote", gitr, ("h1", "h2")), git_wrap=True)
     http = [{"at": 1, "after": a} for a in (False, True)]
